@@ -221,6 +221,8 @@ def repairOne (s : St) (id : String) : St × Bool :=     -- Bool: id goes to `co
   | (s, none) => (s, true)
   | (s, some sp) =>
     let correct := hash sp
+    -- the state point is not kept cached under a wrong id
+    let s : St := if correct = id then s else { s with session := aerase id s.session }
     let moved : Option St :=
       if correct = id then some s
       else match alookup id s.ws with
